@@ -306,7 +306,9 @@ def gen_snapshot(rng, schema, rich=False, big=False, hostile_sentinels=True, all
             s["hot_cues"] = [rhot_cue(rng, used_lab, used_d, 0, False), dict(rhot_cue(rng, used_lab, used_d, 0, False), label="")]
     # waveform only when rate and count are present (contract: extents are derived from them)
     if has_rate and has_count and present():
-        n = rng.choice([0, 1, 7, 100, 1024] + ([100000] if big else []))
+        # sizes include those that make the stored blob an exact multiple of the 16 KiB chunks the zlib container
+        # is written in (30 + 6n bytes on 1.x: n = 8187, 16379), powers of two and their neighbours
+        n = rng.choice([0, 1, 7, 100, 1024] + ([100000, 8187, 16379, 4096, 65535, 2725, 5456] if big else []))
         if n:
             s["waveform"] = rwaveform(rng, n)
     return s
